@@ -12,6 +12,7 @@ import CedarVerif.Driver.Ops.Ffi
 import CedarVerif.Driver.Ops.Tyck
 import CedarVerif.Driver.Ops.SchemaSyntax
 import CedarVerif.Driver.Ops.SymCC
+import CedarVerif.Driver.Ops.Level
 /-
 Line-protocol driver: one request per line on stdin, one reply per line on stdout.
 Unknown or malformed requests answer `(bad-op)`; the driver never defaults.
@@ -34,7 +35,8 @@ def handlers : List (Sexp → Option String) := [
   Ops.handleFfi,
   Ops.handleTyck,
   Ops.handleSchemaSyntax,
-  Ops.SymCCOp.handleSymCC
+  Ops.SymCCOp.handleSymCC,
+  Ops.Level.handleLevel
 ]
 
 def handle (x : Sexp) : String :=
